@@ -10,11 +10,25 @@ radian value against np.deg2rad of the limits (exact rationals), every stored (w
 rows of the attribute table.  Reproducibility is decided on the bit patterns of the stored
 records against a catalog made with a fresh generator of the same seed.  A chi-square statistic
 of area uniformity on an equal-area grid is reported in the evidence only.
+
+Attribute tables (attr_specs / attr_case, checker c16_attr_case): the supplied samples are arbitrary
+arrays - NaN / +inf / -inf entries on the same rows of both columns, on different rows (equally or
+unequally many per column), in one column only, a whole column; duplicated values, duplicated rows,
+constant columns, one row; float64 / float32 / float16 / int64 / int32 / uint8 / bool; plain,
+strided and read-only ndarrays, lists, tuples, pandas Series.  Every direct call and every stored
+patch is laid next to its INDEX TWIN (the same real generator - seed, window, data size - over the
+table whose row j is (j, j)): the model says the stored pairs are, bit for bit and in order, rows
+twin[i] of the samples widened to float64 (tie, flag 0); the property says every stored pair is ONE
+row of the supplied samples, compared as values with NaN = NaN so that rows holding NaN count
+(flag 3).  A refusal of a container / dtype / non-finite table is counted, never a failure.
 """
 import math
 import os
+import random
 import shutil
+import struct
 import traceback
+import warnings
 
 import numpy as np
 
@@ -29,6 +43,9 @@ TRUSTED = [
     "point, proved over the reals only",
     "treecorr k-means (patch_num mode) is an oracle: any centres are accepted, record sets are compared as multisets",
     "the logging subclass of BoxRandoms used by the harness (overrides reseed and __call__ only to record them)",
+    "the index twin of the attribute-table cases: the real generator with the same seed, window, call sizes and data "
+    "size m over the finite float64 table row j = (j, j) is taken to show the index vector of each call "
+    "(numpy Generator.integers depends on the seed, the earlier draws, the bound m and the size only)",
 ]
 ASSUMPTIONS = [
     "HealPixRandoms is unmodelled and not exercised (healpy is not installed; its pixel draw uses the global "
@@ -44,10 +61,19 @@ ASSUMPTIONS = [
     "is clamped and counted as near_tie_skipped",
     "the number of PRNG words behind one vector draw (Generator.integers uses rejection) is abstracted: the model's "
     "stream is indexed by samples; reseed_history_free does not depend on how far a call advances the stream",
+    "attribute tables: ndarrays (any strides, read-only or not) of float64 / float32 / integer dtype without non-finite "
+    "entries must be accepted; a TypeError / ValueError / IndexError / KeyError for a list, tuple or pandas Series, a "
+    "TypeError / ValueError for a float16 or bool table and a ValueError for a table holding NaN / inf are refusals: "
+    "counted (refused:*), not failures (the pinned code passes non-finite entries through unchanged, widens every dtype "
+    "exactly to float64 and raises TypeError at the first call for lists and tuples)",
+    "in the row comparison of the property NaN is one value (sign and payload ignored) and -0.0 = 0.0; bit patterns "
+    "are compared only in the tie with the model (flag 0, ctx.disagree); which rows are drawn, and that rows holding "
+    "non-finite entries are drawn at all, is part of the tie, not of the property",
 ]
 RULE = ("cases = (window, n, cs, seed, attribute mode and table size, patch mode, history of earlier generator use); "
         "distinct by that tuple; non-trivial when the history is non-empty (the generator was used before the observed "
-        "pass) and n > 1")
+        "pass) and n > 1; attribute-table cases = (table content, dtypes, container, layout, mode, window, seed, call "
+        "sizes, n, cs, centres); non-trivial when the table is not a plain finite float64 ndarray with distinct rows")
 
 HEADER = "From Verif Require Import Prelude Chunks Randoms.\nOpen Scope nat_scope.\n"
 
